@@ -74,7 +74,7 @@ META = {
     text='The design model proves OneUnsettled, BlockingReturn and absence of stuck calls incl. the consumer-republishes-with-pending-Subscribe schedule (the legacy design that '
          'held the locks while waiting is rejected: dead-lock found in 135 states), with PubsReturn under fairness. The abstract trace spec makes a receipt with another '
          'unsettled message, and a blocking Publish returning before every certainly-registered subscription acked, unexplainable; consumers that try to read ahead, never ack, '
-         'nack, or republish are run against buffers 0, 1, 5. In blocking mode the messages of one Publish call are handed over one after the other (BatchOrder in GoChannelImpl, BatchOrdered in the abstract oracle; handing the batch over before waiting is rejected); blocking fan-out while other subscriptions are cancelled; a Subscribe to the very topic whose blocking Publish waits for an ack',
+         'nack, or republish are run against buffers 0, 1, 5. In blocking mode the messages of one Publish call are handed over one after the other (BatchOrder in GoChannelImpl, BatchOrdered in the abstract oracle; handing the batch over before waiting is rejected); blocking fan-out while other subscriptions are cancelled; a Subscribe to the very topic whose blocking Publish waits for an ack. TLC-generated gate schedules of GoChannelImpl.tla are replayed against the real GoChannel (every hook point gated per goroutine) and validated as internal traces',
     design_ref='DESIGN.md 6/C05', note="The abstract oracle (GoChannelAbs.tla) constrains only API-observable events; linearization points are searched by TLC (volatile mode) or taken eagerly where their order is provably immaterial (persistent mode). Bounded: design model 2 publishers x 2 subscriptions x 2 messages; harness programs up to 14 subscriptions.", technique='TLC model checking (safety + liveness) of the locking design + trace validation of recorded histories'),
  'C07': dict(
     text='Design model with Close and cancel: NoPanic (close of closed / send on closed channel, nil-map write, subscriber not found), AfterClose, NoStuckCall over >1M states '
@@ -83,7 +83,8 @@ META = {
          'closers; every run ends with Close, post-Close probes, a check that all output channels were closed at the instant Close returned (hook observers) and a goroutine-leak '
          'check by pprof labels; the thorough tier builds with -race. The decorator itself is modelled at the grain of its goroutines (SubDecorator.tla) and validated by internal '
          'traces of random concurrent runs (a cancelled subscription has to close its output channel on its own, before Close is made) and of TLC-generated gate schedules; a '
-         'Subscribe that returns a channel after Close has returned must return a closed one',
+         'Subscribe that returns a channel after Close has returned must return a closed one; TLC-generated gate schedules of GoChannelImpl.tla (every hook point gated per '
+         'goroutine) are replayed against the real GoChannel and validated as internal traces',
     design_ref='DESIGN.md 6/C07', note="The abstract oracle (GoChannelAbs.tla) constrains only API-observable events; linearization points are searched by TLC (volatile mode) or taken eagerly where their order is provably immaterial (persistent mode). Bounded: design model 2 publishers x 2 subscriptions x 2 messages; harness programs up to 14 subscriptions. A crash of the process inside the code under test (fatal error / unrecovered panic) is reported as a violation.", technique='TLC model checking of Close/cancel interleavings + pairwise hook-point fault enumeration with trace validation'),
  'C11': dict(
     text='Persistent configuration of the design model: OneSenderPerPair and terminal completeness for all interleavings of 2 publishers and a late subscription; the '
